@@ -1440,13 +1440,19 @@ impl Block {
                 total_number_of_non_fee_transactions += 1;
             }
 
-            // every transaction a user sends can pay a fee (NFT and staking transactions too): a fee that
-            // is counted nowhere is value that has left the ledger
-            if !transaction.is_block_generated_type() {
-                // (this runs before any transaction of the block has been validated)
+            // (both sums run before any transaction of the block has been validated)
+            if (transaction.is_golden_ticket() || transaction.is_normal_transaction())
+                && !transaction.is_atr_transaction()
+            {
                 cv.total_bytes_new = cv
                     .total_bytes_new
                     .saturating_add(transaction.get_serialized_size() as u64);
+            }
+            // every transaction a user sends can pay a fee (NFT and staking transactions too): a fee that
+            // is counted nowhere is value that has left the ledger. (the byte count above, which the
+            // fee_per_byte header field of every block is derived from, stays with the two types it has
+            // always covered)
+            if !transaction.is_block_generated_type() {
                 cv.total_fees_new = cv.total_fees_new.saturating_add(transaction.total_fees);
             }
 
